@@ -33,6 +33,13 @@
    scalar closures e: (0) the element | (1 c) constant | (2 e) Record::constant(e.number) |
      (3 code c e) | (4 code e1 e2) | (5 e1 e2) e1 at the first index else e2 |
      (6) a clone of a variable of ANOTHER WengertList (number 1)
+   Optional fifth argument (6 ty D prog outs (w ...)): the environment positions of the containers
+   the derivatives are queried WITH RESPECT TO (default: the variable declarations); each must
+   hold a container that lives on the tape (any source kind: views, from_iters outputs whose
+   tape positions interleave, intermediate results) - the harness reads them through every query
+   form of Derivatives (at_tensor / at_tensor_index / at_matrix / at_matrix_index / at /
+   Index<&Record> / Vec::from), the model through `nth position` of the derivative vector, in
+   the VIEW order of the container (Container.at_container).
    Result (n outcome): n operations completed; ok payload (C E):
      C per output: (shape hist ((v i) ...) derivs)   derivs: () for constants, else
          ((per element (per input container (d ...))))
@@ -123,7 +130,14 @@ Definition sshape06 (sh : shape) : sx := slist (spair snat snat) sh.
 (* the derivatives of the tape position `out` with respect to every element of every input *)
 Definition derivs_wrt (t : tape R) (inputs : list (list nat)) (out : nat) : sx :=
   match derivs_checked ops t out with
-  | Ok d => slist (fun idxs => slist (fun i => nenc ops (nth i d (nzero ops))) idxs) inputs
+  | Ok d => slist (fun idxs => slist (fun i => nenc ops (at_record (nzero ops) d i)) idxs) inputs
+  | _ => SL [SZ (-2)%Z]
+  end.
+
+(* the same with respect to containers, through the whole-container query at_container *)
+Definition derivs_wrt_c (t : tape R) (inputs : list (cont R)) (out : nat) : sx :=
+  match derivs_checked ops t out with
+  | Ok d => slist (fun x => slist (nenc ops) (at_container (nzero ops) d x)) inputs
   | _ => SL [SZ (-2)%Z]
   end.
 
@@ -131,12 +145,12 @@ Definition c_result (t : tape R) (env : list (cont R)) (inputs : list nat) (o : 
   match nth_error env o with
   | None => SL [SZ (-2)%Z]
   | Some c =>
-      let ins := map (fun k => match nth_error env k with Some x => map snd (c_data x) | None => [] end) inputs in
+      let ins := map (fun k => match nth_error env k with Some x => x | None => mkCont true [] [] None end) inputs in
       SL [sshape06 (c_shape c); sbool (match c_hist c with Some _ => true | None => false end);
           slist (spair (nenc ops) snat) (c_data c);
           match c_hist c with
           | None => SL []
-          | Some _ => SL [slist (fun p => derivs_wrt t ins (snd p)) (c_data c)]
+          | Some _ => SL [slist (fun p => derivs_wrt_c t ins (snd p)) (c_data c)]
           end]
   end.
 
@@ -153,14 +167,22 @@ Definition e_result (t : tape R) (env : list (econt R)) (inputs : list nat) (o :
                           end) (e_recs c)]
   end.
 
-Definition c06 (D : nat) (prog : list sx) (outs : list nat) : sx :=
+(* the containers the derivatives are queried with respect to must exist and live on the tape *)
+Definition wrt_ok (env : list (cont R)) (k : nat) : bool :=
+  match nth_error env k with
+  | Some c => match c_hist c with Some _ => true | None => false end
+  | None => false
+  end.
+
+Definition c06 (D : nat) (prog : list sx) (outs : list nat) (wrt : option (list nat)) : sx :=
   match sequence (map (dcop D) prog) with
   | None => bad_case
   | Some prog =>
-      let inputs := input_ids 0 prog in
+      let inputs := match wrt with Some w => w | None => input_ids 0 prog end in
       match crun ops ([], []) 0 prog, erun ops ([], []) 0 prog with
       | Some (n, Ok (t, env)), Some (n', Ok (t', env')) =>
           if negb (forallb (fun o => Nat.ltb o (length env)) outs) then bad_case else
+          if negb (forallb (wrt_ok env) inputs) then bad_case else
           SL [snat n; soutcome (fun x => x)
                 (Ok (SL [slist (c_result t env inputs) outs; slist (e_result t' env' inputs) outs]))]
       | Some (n, Err e), Some _ => SL [snat n; soutcome (fun x => x) (Err e)]
@@ -174,8 +196,13 @@ Definition run_c06 (args : list sx) : sx :=
   match args with
   | [SZ ty; D; SL prog; outs] =>
       match dnat D, dlist dnat outs with
-      | Some D, Some outs => with_ty ty (fun R ops => c06 ops D prog outs)
+      | Some D, Some outs => with_ty ty (fun R ops => c06 ops D prog outs None)
       | _, _ => bad_case
+      end
+  | [SZ ty; D; SL prog; outs; wrt] =>
+      match dnat D, dlist dnat outs, dlist dnat wrt with
+      | Some D, Some outs, Some wrt => with_ty ty (fun R ops => c06 ops D prog outs (Some wrt))
+      | _, _, _ => bad_case
       end
   | _ => bad_case
   end.
